@@ -420,6 +420,9 @@ func registerStd(e *Engine) {
 	R("(*regexp.Regexp).MatchString", func(fr *frame, a []value) value {
 		return (*derefPtr(a[0], "regexp")).(reHandle).re.MatchString(goString(a[1]))
 	})
+	R("(*regexp.Regexp).Match", func(fr *frame, a []value) value {
+		return (*derefPtr(a[0], "regexp")).(reHandle).re.Match(byteSlice(a[1], "regexp.Match"))
+	})
 	R("regexp.MatchString", func(fr *frame, a []value) value {
 		ok, err := regexp.MatchString(goString(a[0]), goString(a[1]))
 		if err != nil {
